@@ -68,6 +68,19 @@ pub fn reference_probe(accepted: &[(String, String)], expr: &str) -> Result<Prob
     })
 }
 
+/// input classes for which MathCAT's clean-up is known to misbehave (shared with C01/C02)
+pub fn input_class(xml: &str) -> Option<&'static str> {
+    let tree = parse_xml(xml).ok()?;
+    if pseudo_script_only_row(&tree) {
+        return Some("pseudo-script-only-row");
+    }
+    if !crate::props::c02::schema_valid(&tree) {
+        Some("schema-invalid-input")
+    } else {
+        crate::props::c01::input_trigger(&tree)
+    }
+}
+
 impl C08 {
     fn eval_history(&self, case: &Case) -> Outcome {
         let mut classes: Vec<String> = vec![];
@@ -77,6 +90,7 @@ impl C08 {
         let mut saw_err_then_ok = false;
         let mut saw_err = false;
         let mut kinds = std::collections::BTreeSet::new();
+        let mut cur_class: Option<&'static str> = None;
         if case.start_with_rules {
             let r = interp.run(&Op::SetRulesDir(REPO_RULES.to_string()));
             interp.accepted_prefs.push(("\u{0}set_rules_dir".to_string(), REPO_RULES.to_string()));
@@ -93,7 +107,17 @@ impl C08 {
             match &r {
                 OpResult::Panic(p) => {
                     // panics in sessions that never set the rules directory (documented precondition violated) are kept apart
-                    let sig = if interp.rules_dir_set { p.signature() } else { format!("pre-rules:{}", p.signature()) };
+                    let mut sig = if interp.rules_dir_set { p.signature() } else { format!("pre-rules:{}", p.signature()) };
+                    // clean-up of degenerate / inconsistent / schema-invalid input has a long tail of panic sites with
+                    // one family of root causes (see C01/C02): such panics are named after the input class
+                    if let Op::SetMathml(x) = op {
+                        if let Some(c) = input_class(x) {
+                            sig = format!("set_mathml-panic:trigger:{}", c);
+                        }
+                    } else if let Some(c) = cur_class {
+                        // the stored expression came from such an input: its canonical form may already be malformed (C02)
+                        sig = format!("panic-on-expression:trigger:{}", c);
+                    }
                     viols.push((sig, format!("{} panicked: {} at {}\ntranscript:\n  {}", op.kind(), p.msg, p.loc, transcript.join("\n  "))));
                     break 'outer;
                 }
@@ -103,6 +127,9 @@ impl C08 {
                         saw_err_then_ok = true;
                     }
                 }
+            }
+            if let (Op::SetMathml(x), true) = (op, r.is_ok()) {
+                cur_class = input_class(x);
             }
             // accepted prefs must only start counting once the rules dir is set (before that MathCAT has no pref files)
             // the recovery clause is only asserted for sessions that respected the documented precondition
@@ -136,6 +163,7 @@ impl C08 {
                         }
                     }
                 }
+                cur_class = None;
                 // the probe replaced the expression
                 if let Ok(m) = api::nav_mathml() {
                     interp.old_ids = std::mem::take(&mut interp.cur_ids);
@@ -198,13 +226,17 @@ impl Property for C08 {
     }
     fn death_trigger(&self, case: &Case) -> Option<String> {
         // the expression that was current when the process died
-        let last = case.ops.iter().rev().find_map(|(op, _)| if let Op::SetMathml(s) = op { Some(s.clone()) } else { None }).unwrap_or_else(|| case.probe.clone());
-        let tree = parse_xml(&last).ok()?;
-        if pseudo_script_only_row(&tree) {
-            Some("pseudo-script-only-row".to_string())
-        } else {
-            None
+        // the parent process does not know which call was running: any expression of the history counts
+        for (op, _) in &case.ops {
+            if let Op::SetMathml(s) = op {
+                if let Ok(tree) = parse_xml(s) {
+                    if pseudo_script_only_row(&tree) {
+                        return Some("pseudo-script-only-row".to_string());
+                    }
+                }
+            }
         }
+        None
     }
     fn extra_phases(&self, cfg: &RunCfg, known: &[KnownFinding], stats: &mut Stats) {
         depth_class(cfg, known, stats);
@@ -218,6 +250,10 @@ impl Property for C08 {
 /// (primes, quotes, degree, ...): handle_pseudo_scripts then returns the *parent* and clean_mathml recurses forever
 pub fn pseudo_script_only_row(n: &MNode) -> bool {
     const PS: &[&str] = &["\"", "'", "*", "`", "ª", "°", "²", "³", "´", "¹", "º", "‘", "’", "“", "”", "„", "‟", "′", "″", "‴", "‵", "‶", "‷", "⁗", "''", "'''"];
+    let all_ps = |c: &MNode| !c.kids.is_empty() && c.kids.iter().all(|t| t.tag == "mo" && PS.contains(&t.txt().trim()));
+    if n.tag == "math" && all_ps(n) {
+        return true;
+    }
     n.any(&|k| {
         ["mrow", "mstyle", "mpadded", "mfenced", "msqrt", "menclose", "merror", "mtd", "math", "mphantom"].contains(&k.tag.as_str())
             && k.kids.iter().skip(1).any(|c| ["mrow", "mstyle", "mpadded"].contains(&c.tag.as_str()) && !c.kids.is_empty() && c.kids.iter().all(|t| t.tag == "mo" && PS.contains(&t.txt().trim())))
